@@ -106,8 +106,8 @@ def _subprocess_histories(ctx, e2e):
                 os.makedirs(rd)
                 planted = set()
                 if dk != "clean":
-                    for nm in rng.choice(HOSTILE_ENTRIES, size=6, replace=False):
-                        nm = str(nm)
+                    # always plant an entry named like the very crystal system of this run (packaged data must not be shadowed)
+                    for nm in [ds.system] + [str(x) for x in rng.choice(HOSTILE_ENTRIES, size=6, replace=False) if str(x) != ds.system]:
                         as_dir = dk == "unrelated-dirs" or (dk in ("both", "readonly-extra") and rng.random() < 0.5)
                         if as_dir:
                             os.makedirs(os.path.join(rd, nm), exist_ok=True)
